@@ -157,7 +157,7 @@ Proof.
       destruct (Z.ltb_spec (zlen vals) cap) as [_|Hc]; [|lia]. cbv beta iota.
       assert (Eq : zlist_eqb (vals ++ [v])%list (vals ++ [v])%list = true).
       { generalize (vals ++ [v])%list. induction l as [|x t IH]; cbn; [reflexivity|]. rewrite Z.eqb_refl. exact IH. }
-      rewrite Eq. cbn [andb]. cbv beta iota.
+      rewrite Eq. cbn [andb]. rewrite !Z.eqb_refl. cbv beta iota.
       match goal with |- context [id_result ?f ?r] => let t := lz (id_result f r) in change (id_result f r) with t end.
       rewrite zlen_snoc. reflexivity.
     + cbv beta iota. step. reflexivity.
@@ -206,9 +206,9 @@ Qed.
 
 Lemma tie_get c i : out_result (run no_set exp_PaletteContainer_Get (VCont c) [VZ i]) = Some (pc_get c i).
 Proof.
-  run_closed. unfold pc_get.
-  destruct (bs_get_outcome (cdata c) i) as [[k E]|[w E]]; rewrite E; cbv beta iota.
-  - unfold of_outcome. cbv beta iota. destruct (pal_value (cpal c) k); reflexivity.
+  destruct c as [b cf p d]. run_closed. unfold pc_get. cbn [cdata cpal].
+  destruct (bs_get_outcome d i) as [[k E]|[w E]]; destruct (bs_get d i) as [d' o]; cbn [snd] in E; subst o; cbv beta iota; cbn [snd].
+  - destruct (pal_value p k); reflexivity.
   - reflexivity.
 Qed.
 
@@ -224,7 +224,7 @@ Fixpoint write_pieces (c : pc) (xs : list (string * gexpr)) : option (list N) :=
   match xs with
   | [] => Some []
   | ("", x) :: t => match write_piece c x, write_pieces c t with
-                    | Some a, Some b => Some (a ++ b)
+                    | Some a, Some b => Some (a ++ b)%list
                     | _, _ => None
                     end
   | _ => None
